@@ -1452,6 +1452,42 @@ impl CompositionGraph {
                 _ => bad.push(format!("defined type refers to node {} which does not define it", index.index())),
             }
         }
+        // dependency edges mirror the references between the defined types
+        let defs: Vec<_> = self
+            .graph
+            .node_indices()
+            .filter(|i| matches!(self.graph[*i].kind, NodeKind::Definition))
+            .collect();
+        for a in &defs {
+            for b in &defs {
+                if a == b {
+                    continue;
+                }
+                let a_ty = self.graph[*a].item_kind.ty();
+                let mut references = false;
+                let _ = self.graph[*b].item_kind.ty().visit_defined_types(
+                    &self.types,
+                    &mut |_, id| {
+                        if Type::Value(ValueType::Defined(id)) == a_ty {
+                            references = true;
+                        }
+                        Ok::<(), ()>(())
+                    },
+                );
+                let edges = self
+                    .graph
+                    .edges_connecting(*a, *b)
+                    .filter(|e| matches!(e.weight(), Edge::Dependency))
+                    .count();
+                if edges != usize::from(references) {
+                    bad.push(format!(
+                        "{edges} dependency edge(s) from definition {} to definition {} but references = {references}",
+                        a.index(),
+                        b.index()
+                    ));
+                }
+            }
+        }
         bad.sort();
         bad
     }
